@@ -2,14 +2,16 @@
    Inv s       : every stored reference (Member, EntryManagedBy, Refers, scope maps,
                  RecycledDirectMemberOf) of every stored entry — live or recycled — points at a LIVE entry.
    NoDangling s: what a live entry shows (stored references, DirectMemberOf, MemberOf) points at live entries.
-   step fx     : one write transaction; fx = true is the tree with /verif/fixes/C16.patch, fx = false the
-                 pinned tree (Model.tree_fixed says which one the run-time correspondence is held against). *)
+   step fx     : one write transaction; fx = true is /repo HEAD (since fix commit bbee457), which the
+                 run-time correspondence is held against (Model.tree_fixed = true); fx = false is the tree
+                 BEFORE that commit and appears only in the `_prefix` theorems at the end, which document
+                 the defect this check found. *)
 From Coq Require Import List NArith Bool.
 Import ListNotations.
 Require Import KV.C16.Model KV.C16.Proofs.
 Open Scope N_scope.
 
-(* ---------------------------------------------------------------- the repaired tree: full statement *)
+(* ---------------------------------------------------------------- the full statement (current tree) *)
 
 (* Every operation (create batch, reference edit, delete with cascade, revive with cascade and
    membership restore, purge of the recycle bin, purge of tombstones) preserves the invariant,
@@ -62,51 +64,57 @@ Theorem C16_repl_clean : forall (pre m : state) (cands conf : list N),
   Inv pre -> aligned pre m cands -> Inv (repl_clean true pre m cands conf).
 Proof. intros pre m cands conf H A. apply inv_repl_clean; auto. Qed.
 
-(* ---------------------------------------------------------------- the pinned tree *)
-
-(* The full statement for the pinned tree ... *)
-Definition C16_full_statement : Prop :=
-  forall (s : state) (o : op), Inv s -> Inv (fst (step false s o)).
-
-(* ... is FALSE: with u0 live and u1 a tombstone, `g2.member += [u0, u1]` is committed
-   (check_uuids_exist_fast only needs ONE of the new references to be live). Confirmed on the real
-   server: `c16 --probe`. *)
-Theorem C16_refuted : ~ C16_full_statement.
-Proof. intros H. apply w_breaks. apply H. exact w_inv. Qed.
-Theorem C16_write_refused_refuted :
-  ~ (forall s o, would_dangle s o = true -> snd (step false s o) <> 0).
-Proof. intros H. destruct w_accepted as [A B]. apply (H _ _ B). exact A. Qed.
-
-(* Outside the known class (the new references of one write mix a live target with one that is not
-   live) the pinned tree satisfies the full statement too. *)
-Theorem C16_inv_step_partial : forall (s : state) (o : op),
-  Inv s -> mixed s o = false -> Inv (fst (step false s o)).
-Proof. intros s o H M. apply inv_step_gen; [exact H | right; exact M]. Qed.
-Theorem C16_reachable_partial : forall (ops : list op) (s : state),
-  Inv s -> clean_run s ops = true -> NoDangling (run false s ops).
-Proof. intros ops s H C. apply inv_nodangling. apply inv_run_partial; auto. Qed.
-Theorem C16_write_refused_partial : forall (s : state) (o : op),
-  would_dangle s o = true -> mixed s o = false ->
-  snd (step false s o) <> 0 /\ fst (step false s o) = s.
-Proof. intros s o H M. apply write_refused_gen; [exact H | right; exact M]. Qed.
-Theorem C16_repl_clean_partial : forall (pre m : state) (cands conf : list N),
-  Inv pre -> aligned pre m cands -> repl_mixed pre m cands conf = false ->
-  Inv (repl_clean false pre m cands conf).
-Proof. intros pre m cands conf H A M. apply inv_repl_clean; auto. Qed.
-
 (* ---------------------------------------------------------------- the run-time tie *)
 
-(* Single-server histories: whenever the implementation's observations agree with the model (of
-   either tree) and — on the pinned tree — the history is outside the known classes, every part of
-   the property's executable predicate that speaks about the tracked entries holds on those
-   observations: no dangling reference in any dump, a refused write changed nothing, a delete left
-   no reference behind.  (The whole-database count [dbd] is an observation the model does not
-   predict; pcheck = this core /\ all counts zero, see C16_pcheck_split.) *)
-Theorem C16_agree_implies_property : forall (fx : bool) (init : list oent) (steps : list ostep),
-  agree_gen fx (CHist init steps) = true ->
-  fx = true \/ known_gen (CHist init steps) = false ->
-  nd_dump init && trace_core init steps = true.
-Proof. exact agree_core. Qed.
+(* Single-server histories: whenever the implementation's observations agree with the model, the WHOLE
+   executable predicate of the property holds on those observations: no dangling reference in any
+   dump, the whole-database scan finds nothing, a refused write changed nothing, a delete left no
+   reference behind.  (Two-replica cases: local ops are replayed by the model, the effect of a
+   replication step is not predicted — there pcheck is evaluated on the dumps directly and
+   C16_repl_clean is the model-level statement.) *)
+Theorem C16_agree_implies_property : forall (init : list oent) (steps : list ostep),
+  agree (CHist init steps) = true -> pcheck (CHist init steps) = true.
+Proof. exact agree_pcheck. Qed.
 Theorem C16_pcheck_split : forall (init : list oent) (steps : list ostep),
   pcheck (CHist init steps) = nd_dump init && (trace_core init steps && dbd_zero steps).
 Proof. intros init steps. cbn [pcheck]. rewrite trace_ok_split. reflexivity. Qed.
+
+(* ---------------------------------------------------------------- DOCUMENTATION: the tree before bbee457 *)
+(* Nothing below is about the current tree.  `step false` transcribes refint as it was before fix
+   commit bbee457: check_uuids_exist_fast accepted a set of new references as soon as ONE of them was
+   live and the others still existed recycled or tombstoned. *)
+
+(* The full statement for that tree ... *)
+Definition C16_prefix_full_statement : Prop :=
+  forall (s : state) (o : op), Inv s -> Inv (fst (step false s o)).
+
+(* ... was FALSE: with u0 live and u1 a tombstone, `g2.member += [u0, u1]` was committed.  Confirmed on
+   the real server at the time (`c16 --probe`; on the current tree the probe shows the refusal). *)
+Theorem C16_prefix_refuted : ~ C16_prefix_full_statement.
+Proof. intros H. apply w_breaks. apply H. exact w_inv. Qed.
+Theorem C16_prefix_write_refused_refuted :
+  ~ (forall s o, would_dangle s o = true -> snd (step false s o) <> 0).
+Proof. intros H. destruct w_accepted as [A B]. apply (H _ _ B). exact A. Qed.
+
+(* Outside the class (the new references of one write mix a live target with one that is not live)
+   that tree satisfied the statement too. *)
+Theorem C16_prefix_inv_step_partial : forall (s : state) (o : op),
+  Inv s -> mixed s o = false -> Inv (fst (step false s o)).
+Proof. intros s o H M. apply inv_step_gen; [exact H | right; exact M]. Qed.
+Theorem C16_prefix_reachable_partial : forall (ops : list op) (s : state),
+  Inv s -> clean_run s ops = true -> NoDangling (run false s ops).
+Proof. intros ops s H C. apply inv_nodangling. apply inv_run_partial; auto. Qed.
+Theorem C16_prefix_write_refused_partial : forall (s : state) (o : op),
+  would_dangle s o = true -> mixed s o = false ->
+  snd (step false s o) <> 0 /\ fst (step false s o) = s.
+Proof. intros s o H M. apply write_refused_gen; [exact H | right; exact M]. Qed.
+Theorem C16_prefix_repl_clean_partial : forall (pre m : state) (cands conf : list N),
+  Inv pre -> aligned pre m cands -> repl_mixed pre m cands conf = false ->
+  Inv (repl_clean false pre m cands conf).
+Proof. intros pre m cands conf H A M. apply inv_repl_clean; auto. Qed.
+(* the tie for either tree, outside the former class (everything but the whole-database count) *)
+Theorem C16_prefix_agree_implies_core : forall (fx : bool) (init : list oent) (steps : list ostep),
+  agree_gen fx (CHist init steps) = true ->
+  fx = true \/ prefix_class (CHist init steps) = false ->
+  nd_dump init && trace_core init steps = true.
+Proof. exact agree_core. Qed.
